@@ -144,6 +144,9 @@ PATTERN_SETS = [
     ("r/test*",),
     ("ab.py", "c(1)"),
     ("symfs/r/c(1)*", "mytest.py"),
+    # only one leading / trailing '*' is a wildcard, further asterisks are literal text
+    ("**ab.py",),
+    ("*test**", "**"),
 ]
 
 
